@@ -2,6 +2,7 @@
 #![allow(clippy::type_complexity)]
 
 pub mod classfile;
+pub mod corpus;
 pub mod engine;
 pub mod jar;
 pub mod mapmodel;
